@@ -262,6 +262,15 @@ func createEntry(key any, keyID string) (*Entry, error) {
 			"unsupported key type; only rsa and ecdsa keys are supported")
 	}
 
+	// the algorithm to be used with the key is derived from its size. Keys of
+	// other sizes cannot be used and must be rejected here, not when the key is used
+	switch {
+	case algorithm == AlgRSA && size != rsa2048 && size != rsa3072 && size != rsa4096:
+		return nil, errorchain.NewWithMessagef(heimdall.ErrInternal, "unsupported RSA key size: %d", size)
+	case algorithm == AlgECDSA && size != ecdsa256 && size != ecdsa384 && size != ecdsa512:
+		return nil, errorchain.NewWithMessagef(heimdall.ErrInternal, "unsupported ECDSA key size: %d", size)
+	}
+
 	return &Entry{
 		KeyID:      keyID,
 		Alg:        algorithm,
